@@ -1,3 +1,5 @@
+import Desert.Lemmas.FuelMono
+import Desert.Lemmas.TotalDec
 import Desert.Lemmas.RoundTripFull
 import Desert.Lemmas.Misc
 /-!
@@ -17,7 +19,7 @@ theorem run_extends_any {α : Type} (p : DProg α) (b t : Bytes) (a : α) (s' : 
   run_extends_top p b t a s' h
 
 /-- every strict prefix of a valid encoding is rejected: it never decodes to a value
-(any well-formed declarations; same decoder budget on both sides) -/
+(any well-formed declarations; any budget above the value's depth — `prefix_is_error` below removes the budget) -/
 theorem prefix_rejected (env : Env) (henv : EnvWF env) (ty : Ty) (v : Val) (b : Bytes) (st' : EncSt) (fuel : Nat)
     (he : enc env ty v [] = .ok (b, st')) (hu : v.utf8OK) (hd : v.depth < fuel) (k : Nat) (hk : k < b.length) :
     ∀ a s', runAbs (dec env fuel ty) (AbsSrc.new (b.take k)) ≠ .ok (a, s') := by
@@ -55,5 +57,37 @@ theorem empty_rejected (env : Env) (henv : EnvWF env) (ty : Ty) (v : Val) (b : B
     ∀ a s', runAbs (dec env fuel ty) (AbsSrc.new []) ≠ .ok (a, s') := by
   have := prefix_rejected env henv ty v b st' fuel he hu hd 0 hb
   simpa using this
+
+/-- **a strict prefix of a valid encoding is an error** — not a value, not a panic — with the
+driver's own budget (`|input| + 1`) on the truncated input, through the reference decoder -/
+theorem prefix_is_error (env : Env) (henv : EnvWF env) (hdec : envDecOKb env = true) (ty : Ty) (hty : tyOKb env ty = true)
+    (v : Val) (b : Bytes) (st' : EncSt) (he : enc env ty v [] = .ok (b, st')) (hu : v.utf8OK)
+    (k : Nat) (hk : k < b.length) : ∃ e, decodeAbs env ty (b.take k) = .err e := by
+  cases hr : decodeAbs env ty (b.take k) with
+  | err e => exact ⟨e, rfl⟩
+  | panic w => exact absurd hr (decodeAbs_total env hdec ty hty (b.take k) w)
+  | ok r =>
+    exfalso
+    obtain ⟨a, s'⟩ := r
+    unfold decodeAbs at hr
+    -- the same successful run with a budget above the value's depth
+    obtain ⟨F, hF⟩ : ∃ F, F = max ((b.take k).length + 1) (v.depth + 1) := ⟨_, rfl⟩
+    have hmono := dec_fuel_mono env ((b.take k).length + 1) F (by omega) ty _ _ _ hr
+    exact prefix_rejected env henv ty v b st' F he hu (by omega) k hk a s' hmono
+
+/-- the same through the faithful transcription of `DeserializationContext` -/
+theorem prefix_is_error_faithful (env : Env) (henv : EnvWF env) (hdec : envDecOKb env = true) (ty : Ty)
+    (hty : tyOKb env ty = true) (v : Val) (b : Bytes) (st' : EncSt) (he : enc env ty v [] = .ok (b, st')) (hu : v.utf8OK)
+    (k : Nat) (hk : k < b.length) : ∃ e, decodeTop env ty (b.take k) = .err e := by
+  obtain ⟨e, hab⟩ := prefix_is_error env henv hdec ty hty v b st' he hu k hk
+  unfold decodeTop
+  unfold decodeAbs at hab
+  have hsim := refine (dec env ((b.take k).length + 1) ty) (Ctx.new (b.take k)) (Ctx.new_Inv _)
+  rw [absCtx_new, hab] at hsim
+  cases hr : runCtx (dec env ((b.take k).length + 1) ty) (Ctx.new (b.take k)) with
+  | ok r => obtain ⟨a, c'⟩ := r; rw [hr] at hsim; simp [Sim] at hsim
+  | err e' => exact ⟨e', rfl⟩
+  | panic w => rw [hr] at hsim; simp [Sim] at hsim
+
 
 end C08
